@@ -455,6 +455,42 @@ fn dispatch(bits: u32, kmax: u32) -> (u64, Vec<Bad>) {
     (ev, bad)
 }
 
+/// The large-transform rows of the dispatch table: both sides of each bit-size edge at the
+/// largest size of the row (and the next one), worst-case operands (all n-1).
+fn dispatch_big(cells: &[(u32, u32)]) -> (u64, Vec<Bad>) {
+    let res: Vec<(u64, Vec<Bad>)> = cells
+        .par_iter()
+        .map(|&(bits, k)| {
+            let mut bad = vec![];
+            let n = (W::ONE << bits) - W::ONE;
+            let zn = ZmodN::new(rm::w_to(&n));
+            let minus = zn.sub(&zn.zero(), &zn.one());
+            let size = 1usize << k;
+            let a = vec![minus; size];
+            let mut res = vec![MInt::default(); size];
+            match guarded(|| convolve_modn(&zn, size, &a, &a, &mut res, 0)) {
+                Err(e) => bad.push((format!("what=convolve-panic;site={}", e.site), format!("convolve_modn({} bits, size 2^{}): {}", bits, k, e.short()))),
+                Ok(()) => {
+                    let want = W::from_digit(size as u64) % n;
+                    // a spread of coefficients (every 257th and both ends)
+                    let wrong = (0..size).step_by(257).chain([size - 1, size / 2]).find(|&i| rm::w_from(&zn.to_int(res[i])) != want);
+                    if let Some(i) = wrong {
+                        bad.push(("what=convolve-dispatch-overflow".into(), format!("convolve_modn with a {}-bit modulus, size 2^{}, all coefficients n-1: coefficient {} is wrong (packing class too small for the accumulated sum)", bits, k, i)));
+                    }
+                }
+            }
+            (1, bad)
+        })
+        .collect();
+    let mut ev = 0;
+    let mut bad = vec![];
+    for (e, b) in res {
+        ev += e;
+        bad.extend(b);
+    }
+    (ev, bad)
+}
+
 pub fn run(ctx: &Ctx) -> Report {
     let mut rep = Report::new("exploration");
     let mut all_bad: Vec<Bad> = vec![];
@@ -489,6 +525,16 @@ pub fn run(ctx: &Ctx) -> Report {
         rep.evaluations += e;
         all_bad.extend(bad.into_iter().take(1));
     }
+    // part 4b: large-transform rows
+    let cells: Vec<(u32, u32)> = if ctx.quick() {
+        vec![(245, 17), (246, 17), (256, 17), (280, 16), (281, 16), (310, 14), (311, 14), (150, 13), (151, 13)]
+    } else {
+        vec![(245, 17), (246, 17), (256, 17), (257, 17), (245, 18), (246, 18), (256, 18), (280, 16), (281, 16), (310, 14), (311, 14), (150, 13), (151, 13), (500, 15), (500, 17), (500, 18), (246, 16), (281, 15), (311, 15)]
+    };
+    let (e, bad) = dispatch_big(&cells);
+    rep.evaluations += e;
+    all_bad.extend(bad);
+    rep.set("dispatch_large_cells", J::s(format!("{:?}", cells)));
     // part 5
     let smax = ctx.pick(150u32, 215);
     let (e, bad, missing) = classgroup_tables(smax);
@@ -507,7 +553,7 @@ pub fn run(ctx: &Ctx) -> Report {
     rep.sample(J::obj(vec![("bits", J::from(330u64)), ("class", J::from(5u64)), ("double", J::B(true)), ("checks", J::s("SIQS/MPQS/QS/classgroup parameter functions"))]));
     rep.sample(J::obj(vec![("table", J::s("pollard_pm1::STAGE2_PARAMS")), ("B2", J::s("every point of a 64-per-octave grid 100..6e13 and the strategy literals")), ("checks", J::s("d1 % 6, d2 power of two, d2/2 >= 28, phi(d1)+2 < d2, MultiZmodP::new"))]));
     rep.sample(J::obj(vec![("dispatch", J::s("convolve_modn")), ("bits", J::from(156u64)), ("size", J::s("2^1..2^11")), ("operands", J::s("all 1 / all n-1"))]));
-    rep.rule = format!("(1) EVERY bit length 1..512 x residue class 1,3,5,7 mod 8 x double switch: SIQS, MPQS, QS and class-group parameter functions evaluated (a panic/underflow is a violation) and checked against the consumers' transcribed requirements: positive sizes, interval a positive multiple of 32768, large-prime bounds within u32/u64, A*M^2 within the 255-bit assertion (flagged only when certain), D below 127 bits; (2) the consumers themselves (FBase::new multiple of 8, select_siqs_factors, select_a, prepare_a, Poly::first/next, MPQS make_poly, SieveQS set-up) on a representative input of every size in {:?}..{:?} ({} sizes); (3) both stage-2 tables: the row selected for every B2 of a 64-points-per-octave grid from 100 to 6e13 plus every strategy literal: d1 % 6 == 0, P-1 rows: d2 a power of two, d2/2 >= FFT threshold, phi(d1)+2 < d2, NTT context constructible for a 500-bit modulus up to 2^{}, pm1_impl run on every row within budget; (4) convolve_modn dispatch: EVERY modulus size 2..500 bits (two shapes) x every transform size 2^1..2^{} with worst-case full-length operands (all 1 / all n-1): every cyclic coefficient must equal size mod n; (5) the class-group tables through their consumer: for EVERY adjusted size 20..={} discriminants -p (p = 3 and 7 mod 8) and -4p with exactly that adjusted size run classgroup() (default and forced double large primes) through parameter selection and one polynomial family with the abort predicate set: a panic is a violation.", sizes.first(), sizes.last(), sizes.len(), budget_log_for_rule(ctx), kmax, smax);
+    rep.rule = format!("(1) EVERY bit length 1..512 x residue class 1,3,5,7 mod 8 x double switch: SIQS, MPQS, QS and class-group parameter functions evaluated (a panic/underflow is a violation) and checked against the consumers' transcribed requirements: positive sizes, interval a positive multiple of 32768, large-prime bounds within u32/u64, A*M^2 within the 255-bit assertion (flagged only when certain), D below 127 bits; (2) the consumers themselves (FBase::new multiple of 8, select_siqs_factors, select_a, prepare_a, Poly::first/next, MPQS make_poly, SieveQS set-up) on a representative input of every size in {:?}..{:?} ({} sizes); (3) both stage-2 tables: the row selected for every B2 of a 64-points-per-octave grid from 100 to 6e13 plus every strategy literal: d1 % 6 == 0, P-1 rows: d2 a power of two, d2/2 >= FFT threshold, phi(d1)+2 < d2, NTT context constructible for a 500-bit modulus up to 2^{}, pm1_impl run on every row within budget; (4) convolve_modn dispatch: EVERY modulus size 2..500 bits (two shapes) x every transform size 2^1..2^{} with worst-case full-length operands (all 1 / all n-1): every cyclic coefficient must equal size mod n; the large-transform rows at both sides of each bit-size edge for sizes up to 2^17 (thorough 2^18); (5) the class-group tables through their consumer: for EVERY adjusted size 20..={} discriminants -p (p = 3 and 7 mod 8) and -4p with exactly that adjusted size run classgroup() (default and forced double large primes) through parameter selection and one polynomial family with the abort predicate set: a panic is a violation.", sizes.first(), sizes.last(), sizes.len(), budget_log_for_rule(ctx), kmax, smax);
     rep.assumptions.push("requirements transcribed from the consumers' assert!s and arithmetic; A*M^2 flagged only on a certain failure (lower bound on A)".into());
     rep
 }
